@@ -397,6 +397,11 @@ func genVal(t *rapid.T) Val {
 	case 5:
 		b = rapid.Uint64().Draw(t, "bits")
 	case 6:
+		if rapid.Bool().Draw(t, "hugev") {
+			// finite values at the top of the range
+			b = math.Float64bits(rapid.SampledFrom([]float64{math.MaxFloat64, -math.MaxFloat64, 1e308, -1.5e308, 9.9e307, 1.7e308}).Draw(t, "huge"))
+			break
+		}
 		b = math.Float64bits(float64(int64(1)<<53 + int64(rapid.IntRange(-1, 1).Draw(t, "p53"))))
 	case 7:
 		if rapid.Bool().Draw(t, "shortmant") {
@@ -530,7 +535,16 @@ func CheckText(c TextCase) (v vcase.Verdict) {
 			}
 		}
 		if r.Err() != nil {
-			return // over-long line: outside the domain
+			longest := 0
+			for _, ln := range strings.Split(string(text), "\n") {
+				if len(ln) > longest {
+					longest = len(ln)
+				}
+			}
+			if longest < 65000 {
+				v.Failf("reading the input failed (%v) although its longest line has %d bytes", r.Err(), longest)
+			}
+			return // a line of 64 KiB or more: outside the domain
 		}
 	}
 	if len(c.TextsHex) > 1 {
